@@ -3,5 +3,6 @@ CONSTANTS DevNoticeInSpan = TRUE
           DevClampShift = TRUE
           DevC11HyphenToken = TRUE
           DevC11CleanedNotice = TRUE
+          DevLineTouchSplit = TRUE
 POSTCONDITION TraceAccepted
 CHECK_DEADLOCK FALSE
